@@ -133,6 +133,12 @@ func runVmRun(o opts) error {
 		add("corpus:trunc-incmp-after-index-error", vrState{input: []byte("1"), path: []string{"root"}, flags: []uint32{state.FLAG_WAIT}}, append(append([]byte{}, first...), second[:cut]...))
 		add("corpus:trunc-incmp-skipped", vrState{input: []byte("1"), path: []string{"root"}, flags: []uint32{state.FLAG_READIN, state.FLAG_INMATCH}}, second[:cut])
 	}
+	// corpus: a truncated instruction behind a firing INCMP / a MOVE is completed by the first bytes of the
+	// target node's code, which the VM appends after it (K-C15-glue)
+	add("corpus:glue-after-incmp", vrState{input: []byte("2"), path: []string{"root", "foo"}, flags: []uint32{9}},
+		append(encNewLine(nil, Instr{Op: vm.INCMP, S1: []byte("_catch"), S2: []byte("2")}), 0, 2, 1, 3))
+	add("corpus:glue-after-move", vrState{input: []byte("2"), path: []string{"root"}},
+		append(encNewLine(nil, Instr{Op: vm.MOVE, S1: []byte("_catch")}), 0, 2, 1, 3))
 	for c := 0; c < o.n; c++ {
 		r := hx.Rng(o.seed, "vmrun", c)
 		n := 1 + r.Intn(5)
